@@ -1,9 +1,9 @@
 #!/usr/bin/env python3
-"""keep_seeded.py <worktree> <k> <PROP>: copy a verified seeded change into /verif/seeded/<PROP>-<k>/"""
+"""keep_seeded.py <worktree> <k> <PROP> [name]: copy a verified seeded change into /verif/seeded/<name or PROP-k>/"""
 import json, os, shutil, sys
 wt, k, prop = sys.argv[1], sys.argv[2], sys.argv[3]
 src = os.path.join(wt, "OUT", k)
-dst = os.path.join("/verif/seeded", f"{prop}-{k}")
+dst = os.path.join("/verif/seeded", sys.argv[4] if len(sys.argv) > 4 else f"{prop}-{k}")
 os.makedirs(dst, exist_ok=True)
 meta = json.load(open(os.path.join(src, "meta.json")))
 ver = None
